@@ -225,8 +225,22 @@ class Rule:
             elif len(vs) == 1:
                 out.add(vs[0])                                                               # D2
                 out |= self.single(vs[0])
+            elif mode == "join":
+                # the operands of a join are an ordered list and the engine's model folds the pair rule across that
+                # ordered list (ViralPropagation/sql.py, vp_reduce_refs): ((v1 . v2) . v3); only groups of datapoints,
+                # which have no order, may be folded in any order (D6)
+                out |= self.fold_ordered(vs)
             else:
                 out |= self.folds(vs)
+        return out
+
+    def fold_ordered(self, values):
+        out = set()
+        for reading in self.readings():
+            acc = values[0]
+            for v in values[1:]:
+                acc = self._pair1(acc, v, reading)
+            out.add(acc)
         return out
 
     def rowwise(self, value, all_values):
